@@ -105,13 +105,22 @@ class C05(rowgen.RowGenProp):
               "rhythm": scen.stub_rhythm(w)}
         return {"k": "world", "scenario": sc, "touches": touches, "go2": None, "t0": touches[0][0]}
 
-    def world_cases(self, rng, n):
+    def world_cases(self, rng, n, long_start_p=0.3):
         # the same through the Bot: the method is started a second time in one session - by a second Go
         # after That's all / Rounds - and must begin as a freshly launched Wheatley would
         for i in range(n):
             N = rng.choice([4, 5, 6, 8])
             stage = rng.choice([N, N - 1]) if N > 4 else N
+            long_start = N >= 6 and rng.random() < long_start_p
+            if long_start:
+                stage = rng.randint(3, N - 2)
             spec = gens.rand_pn_spec(rng, stage=stage, calls=True, start_row_p=0.0)
+            if long_start:
+                # a start row on more bells than the method and fewer than the tower: its tail and the tower's
+                # remaining bells cover, in that order
+                bells = list(range(1, rng.randint(stage + 1, N - 1) + 1))
+                rng.shuffle(bells)
+                spec["start_row"] = "".join(gens.BELLS[b - 1] for b in bells)
             spec["start_index"] = rng.choice([0, 0, 1, -1, 2])
             ps = 60
             I = scen.interval(ps, N)
@@ -210,9 +219,13 @@ class C05(rowgen.RowGenProp):
             if m * N - 1 >= len(strikes) or pre[0] >= scen.b2f(strikes[m * N - 1][0]) - 0.0011:
                 return None      # the call did not clearly precede the start of the method
         ast = [(p, c) for p, c in spec["_ast"]]
-        fresh = gens.ref_rows(spec["stage"], gens.denote(ast), list(range(1, spec["stage"] + 1)),
+        opening = list(range(1, N + 1))
+        if spec.get("start_row"):
+            start = [gens.BELLS.index(c) + 1 for c in spec["start_row"]]
+            opening = start + [b for b in range(1, N + 1) if b not in start]
+        fresh = gens.ref_rows(spec["stage"], gens.denote(ast), opening[:spec["stage"]],
                               spec.get("start_index") or 0, 30)
-        covers = list(range(spec["stage"] + 1, N + 1))
+        covers = opening[spec["stage"]:]
         for j in range(len(rows) - m):
             if rows[m + j] != fresh[j] + covers:
                 return (f"second start of the method (row {m}): row {j} is {rows[m + j]}, a freshly launched Wheatley "
